@@ -3,7 +3,9 @@
 //             (len, byte), so > 4 GiB files cost nothing.
 //   Ctl<S>  — wraps any stream: counts calls/bytes, enforces an operation budget, injects one
 //             fault at the k-th call, splits transfers, injects Interrupted.
+use std::cell::Cell;
 use std::collections::BTreeMap;
+use std::rc::Rc;
 use std::io::{self, Read, Seek, SeekFrom, Write};
 
 #[derive(Clone, Debug)]
@@ -219,6 +221,8 @@ pub struct Ctl<S> {
     pub split: u64,        // 0 = off; else PRNG state for transfer splitting
     pub max_chunk: usize,  // with split: at most this many bytes per call (>=1)
     pub interrupts: bool,  // with split: inject Interrupted with probability 1/4
+    pub ops_shared: Rc<Cell<u64>>,   // mirrors c.ops for an observer that does not own the stream
+    pub fired_shared: Rc<Cell<bool>>,
 }
 
 impl<S> Ctl<S> {
@@ -233,6 +237,8 @@ impl<S> Ctl<S> {
             split: 0,
             max_chunk: 1,
             interrupts: false,
+            ops_shared: Rc::new(Cell::new(0)),
+            fired_shared: Rc::new(Cell::new(false)),
         }
     }
     fn rnd(&mut self) -> u64 {
@@ -259,6 +265,7 @@ impl<S> Ctl<S> {
         self.sel += 1;
         if self.sel == self.fault_at {
             self.c.fault_fired = true;
+            self.fired_shared.set(true);
             true
         } else {
             false
@@ -275,6 +282,7 @@ impl<S> Ctl<S> {
 impl<S: Read> Read for Ctl<S> {
     fn read(&mut self, buf: &mut [u8]) -> io::Result<usize> {
         self.c.ops += 1;
+        self.ops_shared.set(self.c.ops);
         self.c.reads += 1;
         if self.over_budget() {
             return Err(Self::budget_err());
@@ -299,6 +307,7 @@ impl<S: Read> Read for Ctl<S> {
 impl<S: Write> Write for Ctl<S> {
     fn write(&mut self, buf: &[u8]) -> io::Result<usize> {
         self.c.ops += 1;
+        self.ops_shared.set(self.c.ops);
         self.c.writes += 1;
         if self.over_budget() {
             return Err(Self::budget_err());
@@ -332,6 +341,7 @@ impl<S: Write> Write for Ctl<S> {
 impl<S: Seek> Seek for Ctl<S> {
     fn seek(&mut self, to: SeekFrom) -> io::Result<u64> {
         self.c.ops += 1;
+        self.ops_shared.set(self.c.ops);
         self.c.seeks += 1;
         if self.over_budget() {
             return Err(Self::budget_err());
